@@ -175,10 +175,22 @@ func fetchStructComments(rootPackage *packages.Package, name *types.Named) (out 
 	pos := name.Obj().Pos()
 	node := nodeAt(pa, pos-1) // move up by one char to get the line right before the struct
 	decl, ok := node.(*ast.GenDecl)
-	if !ok || decl.Doc == nil {
+	if !ok {
 		return nil
 	}
-	for _, line := range decl.Doc.List {
+	doc := decl.Doc
+	if decl.Lparen.IsValid() { // type ( ... ) : the comment is carried by the spec of the struct
+		doc = nil
+		for _, spec := range decl.Specs {
+			if ts, isType := spec.(*ast.TypeSpec); isType && ts.Name.Pos() == pos {
+				doc = ts.Doc
+			}
+		}
+	}
+	if doc == nil {
+		return nil
+	}
+	for _, line := range doc.List {
 		if kind, content := isSpecialComment(line.Text); kind != 0 {
 			out = append(out, SpecialComment{Kind: kind, Content: content})
 		}
